@@ -223,6 +223,7 @@ func (c *Check) Run(sel []HarnessDef) int {
 		cfg.SecondCheck = tc.Second
 		cfg.NoopPkgs = append(append([]string{}, gosym.DefaultNoop...), h.Noop...)
 		cfg.Stubs = h.Stubs
+		cfg.Summaries = h.Summaries
 		ex := &gosym.Explorer{Prog: ld.Prog, Cfg: cfg, H: &gosym.Harness{Name: h.Name, Pkg: pkg, Entry: fn}}
 		hr.ex = ex
 		ex.Run()
